@@ -156,6 +156,11 @@ def classify_death(rc, stderr_tail):
     """Maps a worker death to (kind, text). Resource outcomes are not violations."""
     text = stderr_tail
     if "memory allocation of" in text and "failed" in text:
+        # a request far beyond any arena (>= 1 TiB) is a corrupted length, not memory pressure
+        import re
+        m = re.search(r"memory allocation of (\d+) bytes failed", text)
+        if m and int(m.group(1)) >= (1 << 40):
+            return "corrupt-allocation-size", text
         return "resource", "allocation failure abort"
     if "AddressSanitizer" in text:
         return "asan", text
@@ -216,7 +221,7 @@ def run_engine(binary, engine, count, seed, opts=None, nshards=None, env_extra=N
             for k, v in opts.items():
                 cmd += [f"--{k}", str(v)]
             errf = open(os.path.join(run_dir, f"stderr-{shard}.txt"), "wb")
-            p = subprocess.Popen(cmd, stdout=subprocess.PIPE, stderr=errf, env=env, cwd=VERIF)
+            p = subprocess.Popen(cmd, stdin=subprocess.DEVNULL, stdout=subprocess.PIPE, stderr=errf, env=env, cwd=VERIF)
             last_begin = None
             finished = False
             last_activity = [time.time()]
@@ -356,6 +361,7 @@ def finish(prop, tier, seed, level, res, rule, assumptions, min_nontrivial=2, ex
     """Writes evidence, prints VIOLATION / KNOWN-FINDING lines, returns the exit code."""
     findings = load_findings()
     os.makedirs(EVIDENCE, exist_ok=True)
+    shutil.rmtree(os.path.join(REPLAYS, prop), ignore_errors=True)
     os.makedirs(os.path.join(REPLAYS, prop), exist_ok=True)
     by_sig = {}
     for f in res.failures:
